@@ -341,8 +341,27 @@ pub fn generate(case_seed: u64) -> HsCfg {
     let silent_initiator = !real_initiates && rng.chance(0.12);
     // prefix: reach a state
     let mut script: Vec<Act> = Vec::new();
-    match rng.below(7) {
+    match rng.below(8) {
         0 => {} // established, nothing exchanged
+        7 => {
+            // the application closes while a retransmission timeout is being recovered from:
+            // several segments outstanding, the timer fires (once or more), then the close
+            // (everything must have been transmitted once for the close to proceed, so the
+            // congestion window is opened first by a few acknowledged writes)
+            // and Nagle is mostly off: a held-back tail counts as data still to be sent)
+            sock.disable_nagle = rng.chance(0.8);
+            for _ in 0..rng.range(2, 6) {
+                script.push(Act::Write(rng.range(1500, 4000) as usize));
+                script.push(Act::PeerAckAll);
+            }
+            script.push(Act::Write(rng.range(1100, 3500) as usize));
+            script.push(Act::Advance(*rng.pick(&[250u64, 350, 700, 1100, 3200]) * MS));
+            script.push(if rng.chance(0.5) { Act::Shutdown } else { Act::DropWriter });
+            if rng.chance(0.3) {
+                script.push(Act::DropReader);
+            }
+            script.push(Act::Advance(*rng.pick(&[1u64, 45, 700, 3000]) * MS));
+        }
         1 => {
             // established with traffic both ways
             script.push(Act::Write(rng.range(1, 3000) as usize));
